@@ -261,9 +261,10 @@ func (ab *Abci) line(act map[string]any, ok bool, errs string, evs sdk.Events) S
 	e := ab.Env
 	e.Ctx = ab.ctx()
 	st := Step{Act: act, Res: Res{Ok: ok, Err: errs}, Xfers: []Xfer{}, Hooks: []HookCall{}, Extra: Extra{ValidateOk: true, Answer: []any{}},
-		Ev: []EventJ{}, Rep: 1, Judge: true}
+		Ev: []EventJ{}, Evm: []map[string]any{}, Rep: 1, Judge: true}
 	if ok {
 		st.Xfers = e.modelXfers(evs)
+		st.Evm = e.modelEvents(moduleEvents(evs))
 	}
 	s, err := e.Project(e.Ctx)
 	if err != nil {
